@@ -1,6 +1,7 @@
 package main
 
 import (
+	"context"
 	"errors"
 	"fmt"
 	"sync"
@@ -91,6 +92,47 @@ func init() {
 				bad++
 			}
 			fmt.Printf("retrytiming notbefore/%s retries=%d early=%d negative=%d %s\n", s.name, retries, early, negative, verdict)
+		}
+		// (a') a wait that is left through its cancellation branch at the very moment its timer fires must not hand a spent timer
+		// to a later wait: after executions cancelled 0-195 us before a 2 ms delay expires (by a spinning canceller), a probe with a 20 ms delay still waits
+		{
+			early, probes := 0, 0
+			for round := 0; round < 40; round++ {
+				ctx, cancel := context.WithCancel(context.Background())
+				rp := retrypolicy.Builder[any]().WithDelay(2 * ms).WithMaxRetries(1).
+					OnRetryScheduled(func(e failsafe.ExecutionScheduledEvent[any]) {
+						// a spinning canceller: the cancellation has to land within microseconds of the timer
+						cancelAt := time.Now().Add(e.Delay - time.Duration(round%40)*5*time.Microsecond)
+						go func() {
+							for time.Now().Before(cancelAt) {
+							}
+							cancel()
+						}()
+					}).Build()
+				failsafe.NewExecutor[any](rp).WithContext(ctx).Run(func() error { return errors.New("x") })
+				cancel()
+				var schedAt, startAt time.Time
+				n := 0
+				probe := retrypolicy.Builder[any]().WithDelay(20 * ms).WithMaxRetries(1).
+					OnRetryScheduled(func(failsafe.ExecutionScheduledEvent[any]) { schedAt = time.Now() }).Build()
+				failsafe.Run(func() error {
+					n++
+					if n == 2 {
+						startAt = time.Now()
+					}
+					return errors.New("x")
+				}, probe)
+				probes++
+				if n == 2 && startAt.Sub(schedAt) < 20*ms {
+					early++
+				}
+			}
+			verdict := "ok"
+			if early > 0 {
+				verdict = "VIOLATION"
+				bad++
+			}
+			fmt.Printf("retrytiming notbefore/after-waits-cancelled-at-expiry probes=%d early=%d %s\n", probes, early, verdict)
 		}
 		// (b) max duration
 		for _, md := range []time.Duration{25 * ms, 40 * ms} {
